@@ -31,6 +31,8 @@ AllRules == {"C03.Frame",
              "C17.NoPanic", "C17.Time", "C17.Unrepresentable",
              "X.Predicted"}
 RuleNames == {r \in AllRules : \E p \in Prefixes : StartsWith(r, p)}
+(* a selection that matches no rule would make the validation vacuous *)
+ASSUME RuleNames # {}
 
 FromObsEntry(e) == [kind |-> e.kind, a |-> e.a, b |-> e.b, canon |-> e.canon, summary |-> e.summary]
 FromObsRec(r) == LET d == ParseDate(r.date) IN
